@@ -1233,7 +1233,7 @@ class EdgeQLSourceGenerator(codegen.SourceGenerator):
         self._write_keywords(' MIGRATION FROM ')
         self._write_keywords(' VERSION ')
         self.visit(node.from_version)
-        self._write_keywords(' TO ')
+        self._write_keywords(' TO VERSION ')
         self.visit(node.to_version)
 
         if node.body.text:
@@ -1255,7 +1255,7 @@ class EdgeQLSourceGenerator(codegen.SourceGenerator):
         self._write_keywords(' MIGRATION FROM ')
         self._write_keywords(' VERSION ')
         self.visit(node.from_version)
-        self._write_keywords(' TO ')
+        self._write_keywords(' TO VERSION ')
         self.visit(node.to_version)
 
     def visit_CreateExtension(
